@@ -59,6 +59,7 @@ pub struct Part {
     pub known_hits: BTreeMap<String, u64>,
     pub replays_run: u64,
     pub wall_s: f64,
+    pub watchdog_hits: u64,
     pub profiles: Vec<String>,
     pub rule: String,
     pub shrink_tests: u64,
@@ -96,6 +97,8 @@ pub fn summary(v: &View) -> String {
 }
 
 pub struct CaseResult {
+    /// the harness watchdog fired (inconclusive; never a violation by itself)
+    pub watchdog: bool,
     pub violations: Vec<Violation>,
     pub labels: Vec<&'static str>,
     pub nontrivial: bool,
@@ -159,7 +162,7 @@ pub fn serve() {
         let out = sim::run_sim(&sc, RunOpts::default());
         let v = View::new(&sc, &out.evs);
         let cycle = crate::monitors2::has_logical_cycle(&v);
-        let lines = crate::monitors2::canonical(&v, false);
+        let lines = crate::monitors2::canonical_projected(&v);
         let _ = writeln!(stdout.lock(), "{}", serde_json::json!({"cycle": cycle, "lines": lines}));
         let _ = stdout.lock().flush();
     }
@@ -170,6 +173,7 @@ pub fn run_case(def: &PropDef, sc: &Scenario) -> CaseResult {
         Mode::Single => {}
         Mode::DiffErased => return run_case_diff_erased(def, sc),
         Mode::DiffRef => return run_case_diff_ref(def, sc),
+        Mode::RealThreads => return run_case_rt(def, sc),
     }
     let out = sim::run_sim(sc, RunOpts { log_polls: def.log_polls });
     let v = View::new(sc, &out.evs);
@@ -185,7 +189,21 @@ pub fn run_case(def: &PropDef, sc: &Scenario) -> CaseResult {
     let nontrivial = labels.iter().any(|l| def.nontrivial.contains(l));
     let summary = summary(&v);
     drop(v);
-    CaseResult { violations, labels, nontrivial, summary, evs: out.evs }
+    CaseResult { watchdog: false, violations, labels, nontrivial, summary, evs: out.evs }
+}
+
+fn run_case_rt(def: &PropDef, sc: &Scenario) -> CaseResult {
+    let r = crate::rt::run_rt(sc, 4);
+    let v = View::new(sc, &r.out.evs);
+    let violations = (def.monitor)(&v);
+    let mut labels = vec![];
+    (def.labels)(&v, &mut labels);
+    labels.sort();
+    labels.dedup();
+    let nontrivial = labels.iter().any(|l| def.nontrivial.contains(l));
+    let summary = summary(&v);
+    drop(v);
+    CaseResult { watchdog: r.watchdog, violations, labels, nontrivial, summary, evs: r.out.evs }
 }
 
 fn run_case_diff_erased(def: &PropDef, sc: &Scenario) -> CaseResult {
@@ -220,14 +238,14 @@ fn run_case_diff_erased(def: &PropDef, sc: &Scenario) -> CaseResult {
     let summary = summary(&ve);
     drop(vd);
     drop(ve);
-    CaseResult { violations, labels, nontrivial, summary, evs: oe.evs }
+    CaseResult { watchdog: false, violations, labels, nontrivial, summary, evs: oe.evs }
 }
 
 fn run_case_diff_ref(def: &PropDef, sc: &Scenario) -> CaseResult {
-    use crate::monitors2::{canonical, first_diff};
+    use crate::monitors2::{canonical_projected, first_diff};
     let out = sim::run_sim(sc, RunOpts::default());
     let v = View::new(sc, &out.evs);
-    let mine = canonical(&v, false);
+    let mine = canonical_projected(&v);
     let mut violations = vec![];
     let mut labels = vec![];
     (def.labels)(&v, &mut labels);
@@ -252,7 +270,7 @@ fn run_case_diff_ref(def: &PropDef, sc: &Scenario) -> CaseResult {
     let nontrivial = labels.iter().any(|l| def.nontrivial.contains(l));
     let summary = summary(&v);
     drop(v);
-    CaseResult { violations, labels, nontrivial, summary, evs: out.evs }
+    CaseResult { watchdog: false, violations, labels, nontrivial, summary, evs: out.evs }
 }
 
 fn unknown<'a>(viols: &'a [Violation], known: &KnownFile) -> Option<&'a Violation> {
@@ -318,14 +336,15 @@ pub fn run_prop(def: &PropDef, args: &RunArgs) -> (Part, i32) {
         samples: Vec<serde_json::Value>,
         known_hits: BTreeMap<String, u64>,
         failed: Option<(Scenario, Violation)>,
+        watchdog: u64,
     }
-    let stats = RefCell::new(Stats { evaluations: 0, hashes: HashSet::new(), labels: BTreeMap::new(), samples: vec![], known_hits: BTreeMap::new(), failed: None });
+    let stats = RefCell::new(Stats { evaluations: 0, hashes: HashSet::new(), labels: BTreeMap::new(), samples: vec![], known_hits: BTreeMap::new(), failed: None, watchdog: 0 });
     let seed = args.seed.wrapping_mul(1_000_003).wrapping_add(args.shard as u64).wrapping_add(0x5EED);
     let mut runner = TestRunner::new(Config {
         cases: args.cases,
         rng_seed: RngSeed::Fixed(seed),
         failure_persistence: None,
-        max_shrink_iters: 3000,
+        max_shrink_iters: if def.is_rt() { 60 } else { 3000 },
         max_global_rejects: 0,
         ..Config::default()
     });
@@ -338,6 +357,9 @@ pub fn run_prop(def: &PropDef, args: &RunArgs) -> (Part, i32) {
         let counting = st.failed.is_none();
         if counting {
             st.evaluations += 1;
+            if r.watchdog {
+                st.watchdog += 1;
+            }
             for l in &r.labels {
                 *st.labels.entry(l.to_string()).or_default() += 1;
             }
@@ -368,6 +390,11 @@ pub fn run_prop(def: &PropDef, args: &RunArgs) -> (Part, i32) {
     part.nontrivial_hashes = st.hashes.iter().map(|h| format!("{h:016x}")).collect();
     part.labels = st.labels;
     part.samples = st.samples;
+    part.watchdog_hits = st.watchdog;
+    if st.watchdog > 0 && exit == 0 {
+        eprintln!("harness watchdog fired in {} case(s): inconclusive", st.watchdog);
+        exit = 2;
+    }
     for (k, n) in st.known_hits {
         *part.known_hits.entry(k).or_default() += n;
     }
@@ -394,7 +421,7 @@ pub fn run_prop(def: &PropDef, args: &RunArgs) -> (Part, i32) {
             }
         };
         let start = if pred(&tape_sc) { tape_sc } else { tape_sc };
-        let (min, tests) = if pred(&start) { shrink::shrink(&start, &mut pred, 4000) } else { (start, 0) };
+        let (min, tests) = if pred(&start) { shrink::shrink(&start, &mut pred, if def.is_rt() { 150 } else { 4000 }) } else { (start, 0) };
         part.shrink_tests = tests as u64;
         let r = run_case(def, &min);
         let v = r.violations.iter().find(|v| v.kind == kind).cloned().unwrap_or(first);
